@@ -277,7 +277,7 @@ pub fn gen_corpus(out: &Path, produced_by: &str) -> Result<usize, String> {
             let mut o = RunOut::default();
             let mut ri = 0i64;
             for op in &ops_list {
-                if ops::concretise(seed, &w.model, n_clients, op).is_none() {
+                if ops::concretise(seed, &w.model, n_clients, op).is_none() && !matches!(op, Op::Resend) {
                     w.step(op, &mut o);
                     continue;
                 }
